@@ -132,8 +132,11 @@ inline void enumerateFileCases(Run& run, const std::function<void(const std::vec
 // hook = a place in some Sync()) that no earlier tape of that (type, version) has visited. Switch
 // arms and count-dependent sections that a blind distribution hits rarely are reached one at a time.
 // Cells are distributed over the shards here.
+// `announce` (optional) is told each candidate tape before it is probed: the probe executes the
+// library's reading code outside a case, and a crash there must be attributable to a tape.
 inline void sweepCells(int shard, int nshards, unsigned maxK, unsigned maxV, size_t nPatterns,
-					   const std::function<void(const std::vector<uint8_t>&)>& emit, uint64_t& tried, uint64_t& novel) {
+					   const std::function<void(const std::vector<uint8_t>&)>& emit, uint64_t& tried, uint64_t& novel,
+					   const std::function<void(const std::vector<uint8_t>&)>& announce = nullptr) {
 	static const uint8_t patterns[] = {0x00, 0xA1, 0xC9, 0x95, 0xE1, 0xFF, 0x61, 0xF9};
 	static const uint8_t bases[] = {0x00, 0x61};
 	auto& types = registeredTypes();
@@ -172,14 +175,16 @@ inline void sweepCells(int shard, int nshards, unsigned maxK, unsigned maxV, siz
 					for (unsigned v = 0; v < maxV && v < kSweepMaxValue; v++) {
 						size_t n2;
 						tried++;
+						std::vector<uint8_t> tape = {0xF0, static_cast<uint8_t>(ti & 255), static_cast<uint8_t>(ti >> 8), static_cast<uint8_t>(vi),
+													 static_cast<uint8_t>(k), static_cast<uint8_t>(v)};
+						tape.insert(tape.end(), body.begin(), body.end());
+						if (announce)
+							announce(tape);
 						if (probe(body, static_cast<int>(k), v, n2) <= 0)
 							continue;
 						novel++;
 						if (getenv("VF_SWEEP_DEBUG"))
 							fprintf(stderr, "sweep %s@%s base=%02x read#%u=%u\n", types[ti].c_str(), versions()[vi].name, base, k, v);
-						std::vector<uint8_t> tape = {0xF0, static_cast<uint8_t>(ti & 255), static_cast<uint8_t>(ti >> 8), static_cast<uint8_t>(vi),
-													 static_cast<uint8_t>(k), static_cast<uint8_t>(v)};
-						tape.insert(tape.end(), body.begin(), body.end());
 						emit(tape);
 					}
 			}
@@ -190,7 +195,10 @@ inline void enumerateSweep(Run& run, const std::function<void(const std::vector<
 						   size_t nPatterns = 3) {
 	uint64_t tried = 0, novel = 0;
 	run.feedAll = true;
-	sweepCells(run.args.shard, run.args.nshards, maxK, maxV, nPatterns, feed, tried, novel);
+	sweepCells(run.args.shard, run.args.nshards, maxK, maxV, nPatterns, feed, tried, novel, [&](const std::vector<uint8_t>& tape) {
+		if (run.noteCurrent)
+			run.noteCurrent(tape.data(), tape.size());
+	});
 	run.feedAll = false;
 	run.cls("sweep:forced-reads-tried", tried);
 	run.cls("sweep:tapes-reaching-new-read-sites", novel);
